@@ -42,6 +42,20 @@ def tiny_const(rng):
   return fn
 
 
+def huge_const(rng):
+  """grid_const with a few weight elements at and beyond the edge of the float16 range."""
+  base = grid_const(rng)
+  edge = np.array([65504.0, 65519.0, 65520.0, -65520.0, -1e5, 3e38, 1e-8, -65504.0], np.float32)
+  def fn(si, t, role, shape):
+    a = base(si, t, role, shape)
+    if role == "w" and a.size >= 4:
+      flat = a.reshape(-1)
+      idx = rng.choice(flat.size, size=min(len(edge), flat.size // 2), replace=False)
+      flat[idx] = edge[:len(idx)]
+    return a
+  return fn
+
+
 def small_stats(scn):
   """pipeline.inject_stats divided by 8 (still dyadic): input scales around 1e-3."""
   def fn(q, model, info):
